@@ -587,6 +587,29 @@ func specValidate(n *Node, cfg SpecCfg, dst reflect.Value, path string, loc []st
 			out.cur, out.curIdx = n, 999
 			out.add(p, ts.Opts.Code, "custom")
 		}
+	case n.Kind == KPre:
+		// Validate: the function gets a pointer to the value; an error becomes an issue and the wrapped
+		// schema is skipped, otherwise its output replaces the value, which is then validated
+		s := dst.String()
+		switch n.PreFn {
+		case "vtrim":
+			dst.SetString(strings.TrimSpace(s))
+		case "verror":
+			out.cur, out.curIdx = n, -3
+			out.add(path, "", n.Elem.ZType())
+			return
+		case "vmaybe":
+			if strings.Contains(s, "bad") {
+				out.cur, out.curIdx = n, -3
+				out.add(path, "", n.Elem.ZType())
+				return
+			}
+			dst.SetString(s + "+")
+		default:
+			out.unknown("preprocess function %s in Validate", n.PreFn)
+			return
+		}
+		specValidate(n.Elem, cfg, dst, path, loc, out)
 	default:
 		out.unknown("node kind %s is outside the generic specification", n.Kind)
 	}
